@@ -286,7 +286,7 @@ func ctrInv(s *seqCounters) bool {
 //@   wiring
 //@   keep divzero
 //@   callsite updateAndWriteMPD requires masterValuesSet: ch.masterTimescale != 0 && ch.masterSegDuration != 0
-//@   store maxNrBufSegs := requires keptFilesCoverTheWindow: maxNrBufSegs == ch.timeShiftBufferDepthS*ch.masterTimescale/ch.masterSegDuration + 2
+//@   store maxNrBufSegs := requires keptFilesCoverTheWindow: maxNrBufSegs == uint32(uint64(ch.timeShiftBufferDepthS)*uint64(ch.masterTimescale)/uint64(ch.masterSegDuration)) + 2
 //@   store ch.maxNrBufSegs = requires publishedToHandlers: ch.maxNrBufSegs == maxNrBufSegs
 //@   store windowSize := requires listedWindowOneLessThanKeptFiles: windowSize == maxNrBufSegs - 1
 //@   callsite start requires generatorGetsTheWindow: arg1 == windowSize
